@@ -591,7 +591,7 @@ def initial_setup_stage(A, symmetry, pdef, candidate_iters, epsilon,
         work[:] += A.nnz*candidate_iters*2
 
     # Set predefined strength of connection and aggregation
-    if len(AggOps) > 1:
+    if len(AggOps) > 0:
         aggregate = [('predefined', {'AggOp': AggOps[i]})
                      for i in range(len(AggOps))]
         strength = [('predefined', {'C': StrengthOps[i]})
